@@ -3,10 +3,10 @@ package main
 
 import (
 	"encoding/json"
-	"sort"
 	"flag"
 	"fmt"
 	"os"
+	"sort"
 	"strconv"
 	"time"
 
